@@ -694,6 +694,13 @@ pub fn sync_loop_run(world: &World, seed: u64, tag: &str, cfg: &SyncCfg) -> Sync
 					break 'run;
 				}
 				sp_r[0].inbox.clear();
+				// a frame that decodes but carries bad data makes the handler ban the sender: the Peer
+				// object changes state inside the handler, while the reader thread may or may not answer
+				// the barrier's ping before it notices
+				if sp_r[0].alive && sp_r[0].node_peer.as_ref().map(|np| !np.is_connected()).unwrap_or(false) {
+					sp_r[0].close();
+					bump!(out.probes, "hangup_by_handler_seen_on_peer_object");
+				}
 				if let Some(p) = take_panics().first() {
 					result = Some(v("node-thread-panicked", p.clone()));
 					break 'run;
